@@ -272,3 +272,52 @@ for _p in UNITS["cmd"]["parts"]:
         _parts.append(_p)
 _c10["parts"] = _parts
 UNITS["cmd10"] = _c10
+
+# ------------------------------------------------------------------------------------------------
+# unit bufio: the position-tracking wrappers of src/storage/bitcask/bufio.rs against shim Read / Write / Seek traits
+def rule_result_map(toks, lo, hi, edits, log, it=None):
+    """R-result-map: a body of the form `RECV.map(|v| { BODY })` on a Result becomes
+    `match RECV { Ok(v) => Ok({ BODY }), Err(verif_e) => Err(verif_e) }` (the definition of Result::map; Verus closures cannot
+    capture `&mut self.pos`)."""
+    from gen import sig_idx, match_close
+    if it is None or it.kind != "fn" or it.open is None:
+        return
+    s = sig_idx(toks, it.open + 1, it.end - 1)
+    for n in range(len(s) - 5):
+        if toks[s[n]].text == "." and toks[s[n + 1]].text == "map" and toks[s[n + 2]].text == "(" and toks[s[n + 3]].text == "|" \
+                and toks[s[n + 5]].text == "|" and toks[s[n + 6]].text == "{":
+            op = s[n + 2]
+            cl = match_close(toks, op)
+            if cl != s[-1]:
+                continue
+            ident = toks[s[n + 4]].text
+            edits.ins_before(s[0], "match ", None)
+            edits.replace[s[n]] = " { Ok("
+            edits.replace[s[n + 1]] = ident
+            edits.replace[s[n + 2]] = ") => Ok("
+            for k in (n + 3, n + 4, n + 5):
+                edits.replace[s[k]] = ""
+            edits.replace[cl] = "), Err(verif_e) => Err(verif_e) }"
+            log("R-result-map: RECV.map(|%s| {..}) -> match" % ident)
+            return
+
+
+BUFIO_HEADER = """#![feature(sized_hierarchy)]
+#![allow(unused_imports, dead_code, unused_variables, unused_mut, unused_parens, unused_braces)]
+use vstd::prelude::*;
+
+"""
+UNITS["bufio"] = {
+    "name": "bufio",
+    "header": BUFIO_HEADER,
+    "derive_keep": ["Debug"],
+    "specs": ["bufio.spec"],
+    "parts": [
+        ("raw", "prelude/bufio_prelude.rs", "prelude"),
+        ("raw", "lemmas/bufio_lemmas.rs", "lemma", {"mod": "bufio"}),
+        ("repo", "src/storage/bitcask/bufio.rs", {"mod": "bufio", "rules": (rule_result_map,)}),
+    ],
+    "mod_uses": {"bufio": "use super::io::{self, BufReader, BufWriter, Read, Seek, SeekFrom, Write, Stream};"},
+    "root_uses": "",
+    "extern": [],
+}
